@@ -44,10 +44,17 @@ TRIPWIRE_EXPECTED = ("urlopen-file",)
 # (the custom format deliberately begins with "@": a value is a value, not an argument file)
 SEP_A, SEP_B, SEP_C = "@\x1e", "\x1d", "\x1f"
 CUSTOM_FORMAT = SEP_A + "{file_name}" + SEP_B + "{error.message}" + SEP_B + "{error.validator}" + SEP_C
+# a format that indexes into and pads attributes of the error (e.g. to print the title of the schema that failed): legal
+# for every error of a run over SCHEMA_TITLED, where each (sub)schema has a title
+CUSTOM_FORMAT_INDEXED = SEP_A + "{file_name}" + SEP_B + "{error.schema[title]}|{error.message:>3}|{error.instance!r:.30}" + SEP_B + "{error.validator!s:<14}" + SEP_C
+ACTIVE = {"format": CUSTOM_FORMAT}
 PRETTY_RULE = "-----------------------------"
 
 SCHEMA = {"properties": {"a": {"type": "integer"}, "b": {"type": "string"}, "c": {"maxLength": 1}}, "required": ["p", "q"],
           "type": ["object", "array", "null", "boolean"], "maxItems": 0}
+SCHEMA_TITLED = {"title": "root", "properties": {"a": {"title": "A", "type": "integer"}, "b": {"title": "B {b}", "type": "string"},
+                                                  "c": {"title": "C %s", "maxLength": 1}},
+                 "required": ["p", "q"], "type": ["object", "array", "null", "boolean"], "maxItems": 0}
 INVALID = {1: {"p": 1, "q": 1, "a": "x"}, 2: {"p": 1, "a": "x", "b": 1}, 3: {"a": "x", "b": 1, "q": 0},
            4: {"a": "x", "b": 1}, 5: {"a": "x", "b": 1, "c": "toolong"}, 6: {}, 7: {"p": 0},
            8: 0, 9: "", 10: [1], 11: 1.5, 12: "null", 13: [None]}
@@ -63,7 +70,7 @@ def floors(tier):
     return {"fixtures": 2500, "fixtures_exhaustive_vectors": 600, "fixtures_last_valid_earlier_bad": 300,
             "subprocess_runs": 30 if tier == "quick" else 100, "stdin_fixtures": 40, "base_uri_fixtures": 40,
             "validator_option_fixtures": 100, "validator_vs_dollar_schema_fixtures": 150, "mode:plain-custom": 500, "mode:plain-default": 300, "mode:pretty": 500, "mode:plain-empty": 300,
-            "exit0": 100, "exit_nonzero": 1000, "fixtures_long_lists": 10, "validation_chunks_checked": 3000, "load_diagnostics_checked": 1500}
+            "exit0": 100, "exit_nonzero": 1000, "fixtures_long_lists": 10, "indexed_error_formats": 100, "validation_chunks_checked": 3000, "load_diagnostics_checked": 1500}
 
 
 class Fixture:
@@ -206,7 +213,7 @@ def check(ctx, case, argv, mode, sp, schema_state, sval, insts, cls_opt, base_ur
     if mode == "plain-custom":
         pos = 0
         for path, errs in expected_chunks:
-            want = sorted(CUSTOM_FORMAT.format(file_name=path, error=e) for e in errs)
+            want = sorted(ACTIVE["format"].format(file_name=path, error=e) for e in errs)
             got = []
             # chunks of this file, in stream order
             while True:
@@ -293,6 +300,12 @@ def check(ctx, case, argv, mode, sp, schema_state, sval, insts, cls_opt, base_ur
 
 def one(ctx, root, rng, n, schema_state, inst_states, mode, validator_opt=None, draft_kw=None, base_uri=False,
         stdin_mode=False, subprocess_too=False, schema_obj=None):
+    ACTIVE["format"] = CUSTOM_FORMAT
+    if mode == "plain-custom" and schema_state == "valid" and schema_obj is None and not base_uri and not validator_opt and not draft_kw \
+            and rng.random() < 0.5:
+        ACTIVE["format"] = CUSTOM_FORMAT_INDEXED
+        schema_obj = SCHEMA_TITLED
+        ctx.count("indexed_error_formats")
     fx = Fixture(root, rng, n)
     try:
         sp, sval, insts = build(fx, rng, schema_state, inst_states, schema_obj=schema_obj, draft_kw=draft_kw)
@@ -307,7 +320,7 @@ def one(ctx, root, rng, n, schema_state, inst_states, mode, validator_opt=None, 
             for p, st, v in insts:
                 argv += ["-i", p]
         if mode == "plain-custom":
-            argv += ["--error-format", CUSTOM_FORMAT]
+            argv += ["--error-format", ACTIVE["format"]]
         elif mode == "plain-empty":
             argv += ["--error-format", ""]
         elif mode == "pretty":
